@@ -58,7 +58,7 @@ Qed.
 
 Lemma step_prefix v st o : prefixK (st_srcs st) (st_srcs (fst (step v st o))).
 Proof.
-  destruct o as [k es|es|r]; cbn [step fst st_srcs].
+  destruct o as [k es|es| | |r]; cbn [step fst st_srcs]; try apply prefixK_refl.
   - split; [now rewrite upd_length|]. intros j.
     destruct (Nat.lt_ge_cases k (length (st_srcs st))) as [Hk|Hk].
     + destruct (Nat.eq_dec j k) as [->|Hjk].
@@ -66,19 +66,18 @@ Proof.
         destruct (ds_write_prefix (weq (vm_eq v)) (vm_dup v) (nth k (st_srcs st) []) es) as (w & -> & _). eauto.
       * rewrite nth_upd_neq by congruence. exists []. now rewrite app_nil_r.
     + rewrite upd_ge by assumption. exists []. now rewrite app_nil_r.
-  - apply prefixK_refl.
   - destruct (run_job v st r) as [st' o] eqn:H. cbn [fst]. rewrite (run_srcs _ _ _ _ _ H).
     apply prefixK_refl.
 Qed.
 
-Lemma agree_ops_prefix v c : forall ops st b stf,
-  agree_ops v c st ops = (b, stf) -> prefixK (st_srcs st) (st_srcs stf).
+Lemma agree_ops_prefix v c : forall ops present st b stf,
+  agree_ops v c present st ops = (b, stf) -> prefixK (st_srcs st) (st_srcs stf).
 Proof.
-  induction ops as [|o ops IH]; intros st b stf H; cbn [agree_ops] in H.
+  induction ops as [|o ops IH]; intros present st b stf H; cbn [agree_ops] in H.
   - injection H as _ <-. apply prefixK_refl.
-  - pose proof (step_prefix v st (op_of c o)) as Hp.
-    destruct (step v st (op_of c o)) as [st' out]. cbn [fst] in Hp.
-    destruct (agree_ops v c st' ops) as [rest stf'] eqn:Hr. injection H as _ <-.
+  - pose proof (step_prefix v st (op_of c present o)) as Hp.
+    destruct (step v st (op_of c present o)) as [st' out]. cbn [fst] in Hp.
+    destruct (agree_ops v c (present_after present o) st' ops) as [rest stf'] eqn:Hr. injection H as _ <-.
     eapply prefixK_trans; [exact Hp | eapply IH; eauto].
 Qed.
 
@@ -121,37 +120,6 @@ Proof.
     apply andb_true_iff. split.
     + apply Z.leb_le. rewrite app_length. lia.
     + apply safe1_b_of with (st_sink st); [apply Hs; lia | exact Hv].
-Qed.
-
-Lemma agree_ops_safe owner n c : forall ops st stf,
-  good owner n st -> Forall (wf_op owner n) (map (op_of c) ops) ->
-  agree_ops v_fixed c st ops = (true, stf) ->
-  spec_safe_ops (st_srcs stf) ops = true.
-Proof.
-  induction ops as [|o ops IH]; intros st stf Hg Hwf H; [reflexivity|].
-  cbn [agree_ops] in H. cbn [map] in Hwf. inversion Hwf as [|? ? Ho Hops]; subst.
-  destruct (step v_fixed st (op_of c o)) as [st' out] eqn:Hstep.
-  destruct (agree_ops v_fixed c st' ops) as [rest stf'] eqn:Hr.
-  injection H as Hb <-. apply andb_true_iff in Hb. destruct Hb as [Hok ->].
-  assert (Hg' : good owner n st').
-  { eapply (step_good owner n v_fixed eq_refl); eauto. }
-  pose proof (agree_ops_prefix _ _ _ _ _ _ Hr) as Hp.
-  specialize (IH _ _ Hg' Hops Hr).
-  destruct o as [k es|es|r]; cbn [spec_safe_ops]; try exact IH.
-  apply andb_true_iff. split; [|exact IH].
-  eapply run_safe_spec_of; [apply Hg' | exact Hp | exact Hok].
-Qed.
-
-Theorem agree_fixed_spec_partial c :
-  wf_case c -> agree v_fixed c = true -> spec_safe c = true.
-Proof.
-  intros (owner & Hwf) H. unfold agree in H.
-  destruct (agree_ops v_fixed c (init_state (c_members c)) (c_ops c)) as [ok stf] eqn:Ha.
-  apply andb_true_iff in H. destruct H as [-> Hsrc].
-  assert (E : st_srcs stf = o_srcs c).
-  { apply (list_eqb_eq feed_eqb); [|exact Hsrc]. intros x y. apply list_eqb_eq. apply version_eqb_eq. }
-  unfold spec_safe. rewrite <- E.
-  eapply agree_ops_safe; [apply init_good | exact Hwf | exact Ha].
 Qed.
 
 (** ** The full spec *)
@@ -259,32 +227,35 @@ Definition prev_link (st : state) (prev : option trun) : Prop :=
   | Some p => obs_of st p /\ (tr_out p = 0%N -> at_end (st_srcs st) (st_tok st))
   end.
 
-Lemma agree_ops_spec owner n c : forall ops st stf prev,
+Lemma agree_ops_spec owner n c : forall ops st stf prev last,
   good owner n st -> orig owner (st_srcs st) (st_sink st) ->
-  Forall (wf_op owner n) (map (op_of c) ops) ->
-  agree_ops v_fixed c st ops = (true, stf) -> prev_link st prev ->
-  spec_ops (st_srcs stf) prev ops = true.
+  Forall (wf_op owner n) (ops_of c true ops) ->
+  agree_ops v_fixed c true st ops = (true, stf) -> prev_link st prev ->
+  spec_ops (st_srcs stf) prev false true last ops = true.
 Proof.
-  induction ops as [|o ops IH]; intros st stf prev Hg Ho Hwf H Hlink; [reflexivity|].
-  cbn [agree_ops] in H. cbn [map] in Hwf. inversion Hwf as [|? ? Hwo Hops]; subst.
-  destruct (step v_fixed st (op_of c o)) as [st' out] eqn:Hstep.
-  destruct (agree_ops v_fixed c st' ops) as [rest stf'] eqn:Hr.
+  induction ops as [|o ops IH]; intros st stf prev last Hg Ho Hwf H Hlink; [reflexivity|].
+  cbn [agree_ops] in H. cbn [ops_of] in Hwf. inversion Hwf as [|? ? Hwo Hops]; subst.
+  assert (Hpres : present_after true o = true) by (destruct o; try reflexivity; destruct Hwo).
+  rewrite Hpres in *.
+  destruct (step v_fixed st (op_of c true o)) as [st' out] eqn:Hstep.
+  destruct (agree_ops v_fixed c true st' ops) as [rest stf'] eqn:Hr.
   injection H as Hb <-. apply andb_true_iff in Hb. destruct Hb as [Hok ->].
   assert (Hg' : good owner n st') by (eapply (step_good owner n v_fixed eq_refl); eauto).
   assert (Ho' : orig owner (st_srcs st') (st_sink st')) by exact (step_orig owner n v_fixed eq_refl st _ st' out Hg Ho Hwo Hstep).
-  pose proof (agree_ops_prefix _ _ _ _ _ _ Hr) as Hp.
-  destruct o as [k es|es|r]; cbn [spec_ops].
-  - apply (IH st' stf' None); auto. exact I.
-  - apply (IH st' stf' None); auto. exact I.
+  pose proof (agree_ops_prefix _ _ _ _ _ _ _ Hr) as Hp.
+  destruct o as [k es|es|r| |]; cbn [spec_ops].
+  - apply (IH st' stf' None); auto; exact I.
+  - apply (IH st' stf' None); auto; exact I.
   - cbn [op_of step] in Hstep, Hwo.
-    destruct (run_job v_fixed st (rcfg_of c r)) as [st1 o1] eqn:Hrun. injection Hstep as -> <-.
+    destruct (run_job v_fixed st (rcfg_of c true r)) as [st1 o1] eqn:Hrun. injection Hstep as -> <-.
     destruct (run_agree_obs _ _ _ Hok) as (Hobs & o & [= <-] & Hcode).
     assert (Hconv : tr_out r = 0%N -> converged st' /\ (tr_full r = true -> foreign_deleted st')).
     { intros E. rewrite <- Hcode in E. apply out_code_ok in E. subst o1.
       destruct (run_ok_converged owner n v_fixed eq_refl st _ st' Hg Hwo Hrun) as (C & _ & F).
       split; [exact C | exact F]. }
     apply andb_true_iff. split.
-    + unfold run_spec. apply andb_true_iff. split; [apply andb_true_iff; split; [apply andb_true_iff; split|]|].
+    + unfold run_spec. cbn [orb andb]. rewrite andb_true_r.
+      apply andb_true_iff. split; [apply andb_true_iff; split; [apply andb_true_iff; split|]|].
       * eapply run_safe_spec_of; [apply Hg' | exact Hp | exact Hok].
       * unfold run_conv_spec. destruct (N.eqb (tr_out r) 0) eqn:E0; [|reflexivity].
         apply N.eqb_eq in E0. destruct (Hconv E0) as [C F]. now apply conv_spec_of with st'.
@@ -294,7 +265,7 @@ Proof.
         apply andb_true_iff in Cnd. destruct Cnd as [Cnd Hnf]. apply andb_true_iff in Cnd. destruct Cnd as [Hpo _].
         apply N.eqb_eq in Hpo. apply negb_true_iff in Hnf.
         destruct Hlink as [(Hv1 & Ht1 & _ & Hs1) Hend]. specialize (Hend Hpo).
-        destruct (run_idem_any owner n v_fixed st (rcfg_of c r) Hend (proj1 Hg) Hwo Hnf) as (o2 & Hrun2).
+        destruct (run_idem_any owner n v_fixed st (rcfg_of c true r) Hend (proj1 Hg) Hwo Hnf) as (o2 & Hrun2).
         rewrite Hrun in Hrun2. injection Hrun2 as -> _.
         destruct Hobs as (Hv2 & Ht2 & _ & Hs2).
         apply andb_true_iff. split; [apply andb_true_iff; split|].
@@ -304,13 +275,15 @@ Proof.
       * eapply origin_spec_of; [apply Hg' | exact Ho' | exact Hp | exact Hobs].
     + apply (IH st' stf' (Some r)); auto. split; [exact Hobs|].
       intros E. destruct (Hconv E) as [[Hl Hc] _]. split; [exact Hl|]. intros k Hk. now apply Hc.
+  - destruct Hwo.
+  - apply (IH st' stf' None); auto; exact I.
 Qed.
 
 Theorem agree_fixed_spec c :
   wf_case c -> agree v_fixed c = true -> spec_ok c = true.
 Proof.
   intros (owner & Hwf) H. unfold agree in H.
-  destruct (agree_ops v_fixed c (init_state (c_members c)) (c_ops c)) as [ok stf] eqn:Ha.
+  destruct (agree_ops v_fixed c true (init_state (c_members c)) (c_ops c)) as [ok stf] eqn:Ha.
   apply andb_true_iff in H. destruct H as [-> Hsrc].
   assert (E : st_srcs stf = o_srcs c).
   { apply (list_eqb_eq feed_eqb); [|exact Hsrc]. intros x y. apply list_eqb_eq. apply version_eqb_eq. }
